@@ -372,6 +372,11 @@ class Canon(ast.NodeTransformer):
     def visit_IfExp(self, node):
         self.generic_visit(node)
         node.test = truth_form(node.test)
+        # a literal test (left behind when a helper's flag parameter is replaced by the constant it was called with)
+        if isinstance(node.test, ast.Constant) and isinstance(node.test.value, bool):
+            return node.body if node.test.value else node.orelse
+        if isinstance(node.test, ast.UnaryOp) and isinstance(node.test.op, ast.Not) and isinstance(node.test.operand, ast.Constant) and isinstance(node.test.operand.value, bool):
+            return node.orelse if node.test.operand.value else node.body
         return node
 
     def visit_For(self, node):
@@ -410,6 +415,9 @@ class Canon(ast.NodeTransformer):
         if descend:
             self.generic_visit(node)
         node.test = truth_form(node.test)
+        if isinstance(node.test, ast.Constant) and isinstance(node.test.value, bool):
+            # `if True:` / `if False:` left behind by a flag parameter replaced by its constant argument
+            return (node.body if node.test.value else node.orelse) or [ast.copy_location(ast.Pass(), node)]
         plain_else = node.orelse and not (len(node.orelse) == 1 and isinstance(node.orelse[0], ast.If))
         if isinstance(node.test, ast.UnaryOp) and isinstance(node.test.op, ast.Not) and plain_else:
             node.test, node.body, node.orelse = node.test.operand, node.orelse, node.body
